@@ -1,6 +1,6 @@
 (* C02 — decode (encode v) = v, consuming exactly the encoding. *)
 Require Import Scale.Bytes Scale.Eres Scale.Prog Scale.ProgFacts Scale.ProgMore Scale.Chunks Scale.Monitors Scale.CompactImpl
-  Scale.CompactSpec Scale.CompactProofs Scale.CompactTheorems Scale.Utf8 Scale.Codec Scale.CodecEnc Scale.CodecDec Scale.CodecRt Scale.CodecMore.
+  Scale.CompactSpec Scale.CompactProofs Scale.CompactTheorems Scale.Utf8 Scale.Codec Scale.CodecEnc Scale.CodecDec Scale.CodecRt Scale.CodecMore Scale.TraceEq Scale.Depth Scale.Rec Scale.RecRt.
 
 (* for every type of the universe (bit sequences included), every well-formed value, every suffix, known or
    unknown remaining length: decoding the encoding followed by anything returns the value
@@ -37,8 +37,33 @@ Example C02_nonvacuous :
   runo (dec ex_t) true ([x08; x01; x04; x01; x02; x07; x00] ++ [xff]) = OOk ex_v [xff].
 Proof. repeat split; vm_compute; reflexivity. Qed.
 
+(* recursive derived types (Rec.v): decoding the encoding of a value of a recursive enum, with any
+   recursion budget that covers the value, returns the value and leaves what follows; the variant
+   indices must be below 256 and pairwise distinct, which derive_accepts guarantees (C17) *)
+Theorem C02_recursive_roundtrip : forall d F F' v bs known rest,
+  wf_rdef d = true -> ridx_ok d = true -> (F <= F')%nat -> renc F d v = EOk bs ->
+  runo (rdec F' d) known (bs ++ rest) = OOk (rcanon F d v) rest.
+Proof. exact rec_roundtrip_any_budget. Qed.
+
+(* bit sequences are inside C02_roundtrip *)
+Example C02_bits_nonvacuous :
+  let t := TBits 2 true in
+  let v := VBits [true; false; true; true; false; false; false; false; true; true; true; false; false; false; false; false; true] in
+  wf_ty t = true /\ wf t v = true /\ enc_spec t v = EOk [x44; xe0; xb0; x00; x80] /\
+  runo (dec t) false [x44; xe0; xb0; x00; x80; xee] = OOk v [xee].
+Proof. repeat split; vm_compute; reflexivity. Qed.
+
+Example C02_recursive_nonvacuous :
+  let d : rdef := [(0, [FTy (TPrim 1)]); (1, [FBox 32]); (2, [FBox 32; FTy (TPrim 2); FOptBox 32]); (5, [FVec 32])] in
+  let leaf n := VVar 0 (VPair (VN n) VUnit) in
+  let v := VVar 3 (VPair (VSeq [VVar 1 (VPair (leaf 7) VUnit); VVar 2 (VPair (leaf 1) (VPair (VN 513) (VPair (VSome (leaf 2)) VUnit)))]) VUnit) in
+  wf_rdef d = true /\ ridx_ok d = true /\
+  renc 4 d v = EOk [x05; x08; x01; x00; x07; x02; x00; x01; x01; x02; x01; x00; x02].
+Proof. repeat split; vm_compute; reflexivity. Qed.
+
 Print Assumptions C02_roundtrip.
 Print Assumptions C02_roundtrip_impl.
 Print Assumptions C02_chunked_read_is_one_read.
 Print Assumptions C02_chunked_items_is_repetition.
 Print Assumptions C02_sorted_is_canonical.
+Print Assumptions C02_recursive_roundtrip.
